@@ -41,6 +41,14 @@ def specOp (toks : List String) : Option String :=
     let man ← (ns.take m.man.length).mapM (fun n => fs.lookup n)
     let opt := (ns.drop m.man.length).map (fun n => fs.lookup n)
     pure ("ok " ++ bytesToHex (Spec.render m ⟨man, opt⟩))
+  | "szuclfsr" :: init :: u :: cells => do
+    -- one LFSR step by the definition over GF(2^31-1) (residue 0 represented by 2^31-1)
+    let u ← u.toNat?
+    let cs ← cells.mapM (·.toNat?)
+    if cs.length ≠ 16 then none
+    let st : Spec.ZUC.St := ⟨cs, 0, 0⟩
+    let st' := Spec.ZUC.lfsrStep st (if init == "1" then u else 0)
+    pure ("ok " ++ " ".intercalate (st'.s.map toString))
   | ["snea", alg, key, count, bearer, dir, data, bl] => do
     let key ← hexToBytes key; let count ← count.toNat?; let bearer ← bearer.toNat?; let dir ← dir.toNat?
     let data ← hexToBytes data; let bl ← bl.toNat?
